@@ -221,3 +221,6 @@ def run(ctx):
     # the small accessors and pass-through wrappers the rules above look through by name return what their names say (rules/accessors.py)
     from rules import accessors as _acc
     _acc.rule_accessors(ctx, "C10")
+    # a directory entry names exactly the bytes of its stream: count header, array and entry size agree (same rule instance as C01/count-array)
+    from rules import c01 as _c01c
+    _c01c.rule_count_array(ctx, R="C10/count-array")
